@@ -59,8 +59,12 @@ type Solver struct {
 	store     *TermStore
 }
 
-func NewSolver(store *TermStore, timeoutMs int) (*Solver, error) {
+func NewSolver(store *TermStore, timeoutMs int, which string) (*Solver, error) {
 	s := &Solver{name: solverBin(), args: []string{"-in"}, timeoutMs: timeoutMs, store: store}
+	if which == "cvc5" {
+		s.name = "cvc5"
+		s.args = []string{"--incremental", "--produce-models", fmt.Sprintf("--tlimit-per=%d", timeoutMs), "--lang=smt2"}
+	}
 	if p := os.Getenv("GOSYM_SMTLOG"); p != "" {
 		f, _ := os.Create(p)
 		s.log = f
@@ -91,8 +95,12 @@ func (s *Solver) start() error {
 	s.ndefs = 0
 	s.level = 0
 	s.asserted = nil
-	s.send("(set-option :global-declarations true)\n")
-	s.send(fmt.Sprintf("(set-option :timeout %d)\n", s.timeoutMs))
+	if s.name == "cvc5" {
+		s.send("(set-logic ALL)\n(set-option :global-declarations true)\n")
+	} else {
+		s.send("(set-option :global-declarations true)\n")
+		s.send(fmt.Sprintf("(set-option :timeout %d)\n", s.timeoutMs))
+	}
 	return nil
 }
 
